@@ -2,8 +2,8 @@
    functions, the model of a constructor built from the table, and table-independent lemmas.  Nothing here depends on
    the CONTENT of the tables, so this file compiles for any tree (the correspondence shards only need this file);
    the sweeps that can fail are in C12tab.v, the theorems in C12.v. *)
-From Coq Require Import String List Bool. Import ListNotations. Open Scope string_scope.
-Require Import Registry Registryproof Attr Attrproof AttrSpec Gen_Registry Gen_Ctors.
+From Coq Require Import String List Bool ZArith. Import ListNotations. Open Scope string_scope.
+Require Import Registry Registryproof Attr Attrproof AttrSpec CtorGuardSpec Gen_Registry Gen_Ctors.
 
 (* ---------------------------------------------------------------- registry *)
 
@@ -119,6 +119,22 @@ Definition same_name_ok (e : centry) : bool :=
   match stored_prop e with
   | None => true
   | Some p => if existsb (fun x => String.eqb (fst x) (c_arg e)) (props_of (c_class e)) then String.eqb p (c_arg e) else true
+  end.
+
+(* the guard read from the current sources is the one of the reference table CtorGuardSpec.v; unknown pairs are not judged *)
+Definition guard_eqb (a b : guard) : bool :=
+  match a, b with
+  | GNone, GNone | GTruthy, GTruthy | GNotNone, GNotNone => true
+  | GGe n, GGe m => Z.eqb n m
+  | _, _ => false
+  end.
+Definition guard_matches_reference (e : centry) : bool :=
+  match find (fun r => String.eqb (fst r) (c_class e) && String.eqb (fst (snd r)) (c_arg e)) guard_reference with
+  | None => true
+  | Some r => match c_kind e with
+              | Stored _ g _ _ => guard_eqb g (snd (snd r))
+              | _ => false        (* the reference knows it as a guarded store; now it is something else *)
+              end
   end.
 
 (* ---- the model of a constructor's stores, built from the table ---- *)
